@@ -7,9 +7,9 @@
 From stdpp Require Import base option list numbers fin_maps nmap.
 From Verif.Base Require Import Bytes.
 From Verif.Codec Require Import Packets Decode Encode.
-From Verif.Gateway Require Import GwTypes GwStep Sound_C16.
+From Verif.Gateway Require Import GwTypes GwStep GwWf GwRun Sound_C16 Sound_C16b.
 From Verif.Client Require Import ClTypes ClStep Sound_Client.
-From Verif.Checkers Require Import ChkCodec ChkGw ChkCl.
+From Verif.Checkers Require Import ChkCodec ChkGw ChkGw5 ChkCl.
 Open Scope N_scope.
 
 (* Retransmissions repeat the same message ID and payload with DUP set: while the budget lasts, the
@@ -37,6 +37,16 @@ Theorem C16_gateway_stops_after_RetryCount :
     fire cfg s (TmRetry g) = (finish_obj s g, [], HOk) /\ gw_objs (finish_obj s g) !! g = None.
 Proof. exact retry_stops. Qed.
 Print Assumptions C16_gateway_stops_after_RetryCount.
+
+(* Every step of a broker-publish exchange is relayed (chk_C16, Checkers/ChkGw5.v), in EVERY history:
+   the client's accepting PUBACK / PUBREC / PUBCOMP for the exchange the store holds under that
+   message ID in the matching state reaches the broker as MQTT PUBACK / PUBREC / PUBCOMP with the same
+   ID in the same step, and the broker's PUBREL is written to a client that is not asleep. *)
+Theorem C16_gateway_relays_every_step :
+  forall cfg evs, wf_cfg cfg -> Forall wf_event evs ->
+    run_all cfg (fun s ev => chk_C16 cfg s ev (obs_of_outs (snd (gw_step cfg s ev))) = []) (init_state cfg) evs.
+Proof. exact chk_C16_history. Qed.
+Print Assumptions C16_gateway_relays_every_step.
 
 (* Client side (shared with C17): for every behaviour of gateway and link, a PUBREL - also a
    retransmitted one for an exchange the client already finished - is answered with exactly one
